@@ -37,9 +37,13 @@ Record prims (T : Type) := {
   rt : T -> T;                              (* square root *)
   afun : nat -> list T -> list T;           (* abstract (user-defined) nonlinear leaves ... *)
   ader : nat -> list T -> list T -> list T; (* ... and what their .derivative(x) computes *)
-  adom : nat -> space; aran : nat -> space }.
+  adom : nat -> space; aran : nat -> space;
+  (* variant switch (measured on the code at run time): what OperatorRightScalarMult.derivative
+     builds -- false: scalar * op'(scalar x) (OperatorLeftScalarMult, the current source);
+     true: OperatorRightScalarMult(op'(scalar x), scalar), the proposed repair for complex scalars *)
+  rsv : bool }.
 Arguments tr {T}. Arguments rt {T}. Arguments afun {T}. Arguments ader {T}.
-Arguments adom {T}. Arguments aran {T}.
+Arguments adom {T}. Arguments aran {T}. Arguments rsv {T}.
 
 Section Model.
 Context {T : Type} `{Num T}.
@@ -343,7 +347,8 @@ Fixpoint derivative (e : oexpr) (x : list T) : oexpr :=
   | OPProd a b =>
       OSum (mk_lmul (ran a) (eval b x) (derivative a x)) (mk_lmul (ran a) (eval a x) (derivative b x))
   | OLScal a s => if is_lin a then e else mk_lscal s (derivative a x)
-  | ORScal a s => mk_lscal s (derivative a (vscal s x))
+  | ORScal a s =>
+      if rsv P then ORScal (derivative a (vscal s x)) s else mk_lscal s (derivative a (vscal s x))
   | OLVec a v => if is_lin a then e else OLVec (derivative a x) v
   | ORVec a v => if is_lin a then e else ORVec (derivative a (vmul v x)) v
   | OFLVec a v => if is_lin a then e else OFLVec (derivative a x) v
